@@ -43,5 +43,7 @@ func init() {
 	clean := ruleExecuteThenClean("pebbles.(*Gateway).queryHandler$1", "pebbles.(*Gateway).newSubscriptionEntry$1")
 	register("C01", "", clean, rulePrepareResponse)
 	register("C17", "", clean, rulePrepareResponse)
+	scAll := scope{"module", []string{"pebbles.(*Gateway).Handler", "pebbles.NewGateway", "planner.(*CachedPlanner).Plan", "merger.(SanitizeNodeMergerFunc).Merge"}}
+	register("C13", "", ruleMapRanges(scAll, 40), ruleReducers, ruleSelects, ruleCallers(func(c string) bool { return c == "time.Now" }), ruleGoSites)
 	register("X6", "debug: R6 over whole module", ruleErr(errScope{label: "all", pkgs: []string{"pebbles", "common", "executor", "format", "gqlerrors", "introspection", "merger", "planner", "queryer", "requests"}}))
 }
